@@ -17,7 +17,9 @@ Record case := mkcase {
   k_rot0 : name;
   k_now0 : name;
   k_events : list xevent;
-  k_final : fsys                  (* observed directory after Close and the last clean-up *)
+  k_final : fsys;                 (* observed directory after Close and the last clean-up *)
+  k_front_ok : bool               (* front-end stream: every record reached RotateLogger.Write as exactly one
+                                     slice holding its well-formed encoding (Spec.frontend_ok); true otherwise *)
 }.
 
 (* the bytes of a (printable ASCII) string *)
@@ -163,6 +165,7 @@ Definition spec_ok (k : case) : bool :=
   let c := k_cfg k in
   let w := wrecs (k_events k) in
   let all := graveyard (k_events k) ++ k_final k in
+  k_front_ok k &&
   once_complete w all &&
   (if nondecreasing (stamps k) then in_order k w all else true) &&
   overshoot_ok k w all &&
